@@ -33,6 +33,21 @@ def handleBuiltin (st : St) (b : String) (parts : List (List String)) : String :
 def handle (st : St) (line : String) : St × Option String :=
   let parts := splitBar line
   let tidOf : Option String := match parts with | (_ :: tid :: _) :: _ => some tid | _ => none
+  if line.startsWith "PK " then
+    (match parts with
+     | [[_, nm, path]] => ({ st with pk := { name := nm, path := path, decls := [] } }, none)
+     | _ => (st, some "skip malformed")) else
+  if line.startsWith "PD " then
+    (match parts with
+     | (_ :: nm :: toks) :: _ =>
+       (match parseTExpr toks with
+        | some (e, _) => ({ st with pk := { st.pk with decls := st.pk.decls ++ [(nm, e)] } }, none)
+        | none => (st, some "skip bad-decl"))
+     | _ => (st, some "skip malformed")) else
+  if line.startsWith "PX " then
+    (match parts with
+     | [head, a, b] => (st, some (opParsers st.pk head a b))
+     | _ => (st, some "skip malformed")) else
   if line.startsWith "RS " then
     (match parts with
      | [_, [mism, first]] => (st, some (if mism == "0" then "agree" else "dev-viol concurrent-call-differs-from-sequential " ++ first))
